@@ -6,7 +6,12 @@
   --   Cx.Impl.X25519.curve25519      : (n p : Bytes) → n.length = 32 → p.length = 32 → Option Bytes
   --   Cx.Impl.X25519.curve25519_base : (n : Bytes) → n.length = 32 → Option Bytes
   --   Cx.Impl.X25519.dh / base       : the x25519.rs wrappers (newtypes over [u8; 32])
-  --   (`none` = arithmetic-overflow panic of an overflow-checked build; proved impossible)
+  --   (`none` = arithmetic-overflow panic of an overflow-checked build; proved impossible:
+  --    Props.C12.curve25519_eq_x25519 / curve25519_no_overflow)
+  --   The loop body is split for the proofs into `bitChoice` (bit extraction), `ladderStepCore` (the two
+  --   masked swaps + `ladderArith`, the 18 field operations in source order); `ladderLoop` is the
+  --   `for pos in (0..255).rev()`; `ladderMain` the statements both functions share (the Rust source
+  --   repeats the whole ladder in `curve25519_base`, differing only in `x1` and in `z5`, see `Z5`).
 -/
 import CxVerif.Impl.Fe64
 namespace Cx.Impl.X25519
